@@ -243,7 +243,16 @@ impl Subject {
                 Err(DeleteQueueError::IoError(e)) => (Outcome::Err(io_kind(&e)), None),
             },
             COp::Append { q, pos, payloads } => {
-                let res = if payloads.len() == 1 {
+                // The batch is an `Iterator<Item = impl Buf>`: the same payloads are handed over in
+                // three shapes, by turns - exact size hint (slice iterator / append_record), a
+                // filter that keeps everything (hint (0, Some(n))), and `from_fn` (hint (0, None)).
+                let shape = self.op_count % 3;
+                let res = if !payloads.is_empty() && shape == 1 {
+                    log.append_records(q, *pos, payloads.iter().map(|p| &p[..]).filter(|_| true))
+                } else if !payloads.is_empty() && shape == 2 {
+                    let mut it = payloads.iter();
+                    log.append_records(q, *pos, std::iter::from_fn(move || it.next().map(|p| &p[..])))
+                } else if payloads.len() == 1 {
                     log.append_record(q, *pos, &payloads[0][..])
                 } else if payloads.is_empty() && self.op_count % 2 == 1 {
                     // an empty batch is an iterator that yields nothing, whatever its size hint
